@@ -119,10 +119,14 @@ func (l *maximumWaitVehicleConstraintImpl) EstimateIsViolated(
 			stopPositionsCount--
 		}
 
+		// The rest of the route keeps its schedule once the arrival at a planned
+		// stop is unchanged, but its accumulated wait shifts by the wait picked
+		// up so far: only stop when that did not grow.
 		if !isDependentOnTime &&
 			stopPositionsCount == 0 &&
 			to.IsPlanned() &&
-			arrival == to.ArrivalValue() {
+			arrival == to.ArrivalValue() &&
+			accumulatedWait <= to.Previous().ConstraintData(l).(*maximumWaitVehicleConstraintData).accumulatedWait {
 			break
 		}
 
